@@ -18,7 +18,9 @@
 //! `handle_established_*_connection` + `ConnectionEstablished` + `HandlerEvent::PeerKind` +
 //! `HandlerEvent::Message` decoded by the real codec from hand-encoded SUBSCRIBE/GRAFT frames),
 //! local subscribe/publish, then `verif_heartbeat()` x3 with peers joining/leaving in between, under
-//! overflow-checks + debug-assertions. Oracle: no panic inside the heartbeat call. A panic in any
+//! overflow-checks + debug-assertions. Oracle: no panic inside the heartbeat call (signature
+//! `heartbeat-panic@site` when the accepted config violates the inequalities, i.e. the builder let it
+//! through, `heartbeat-panic-with-valid-config@site` when it satisfies them). A panic in any
 //! other call is counted (`panics_outside_heartbeat`) but not judged: the statement speaks of the
 //! heartbeat only.
 use std::collections::BTreeSet;
@@ -316,6 +318,7 @@ fn heartbeat_case(check: &Check, cfg: Config, ops: &[Op], rng: &mut Rng) {
     let all_topics = ["t0", TOPICS[0], TOPICS[1], "fan"];
     let mut log: Vec<String> = vec![];
     let key = Keypair::generate_ed25519();
+    let cfg_copy = cfg.clone();
     let built = catch(|| gs::Behaviour::new(MessageAuthenticity::Signed(key), cfg));
     let b: gs::Behaviour = match built {
         Ok(Ok(b)) => b,
@@ -406,9 +409,13 @@ fn heartbeat_case(check: &Check, cfg: Config, ops: &[Op], rng: &mut Rng) {
         }
         Ok(Some(p)) if p.in_repo() => {
             check.count("heartbeat_panics", 1);
+            // a panic with a config that satisfies every inequality of the statement is a defect of
+            // the heartbeat itself; one with an accepted-but-violating config is the consequence of
+            // the builder accepting it: keep the two apart
+            let valid = judge(&cfg_copy, ops).is_empty();
             check.violation(
-                format!("heartbeat-panic@{}", p.site()),
-                format!("heartbeat panicked with an accepted config: {}", p.msg),
+                format!("{}@{}", if valid { "heartbeat-panic-with-valid-config" } else { "heartbeat-panic" }, p.site()),
+                format!("heartbeat panicked with an accepted config ({}): {}", if valid { "satisfying the inequalities" } else { "violating the inequalities" }, p.msg),
                 json!({"ops": ops_json(ops), "driver": log}),
             );
             check.case(s.0, true);
@@ -471,12 +478,13 @@ pub fn run(args: &Args) -> i32 {
         }
     }
     // (C)
-    let nseq = args.tier.pick(20_000u64, 400_000);
+    let nseq = args.tier.pick(20_000u64, 4_000_000);
     let acc_c = std::sync::Mutex::new(vec![]);
+    let keep_one_in = args.tier.pick(8u64, 64);
     vmon::par_cases(&check, nseq, args.threads, |_, rng| {
         let ops = gen_ops(rng);
         if let Some(cfg) = builder_case(&check, &ops) {
-            if rng.chance(1, 8) {
+            if rng.chance(1, keep_one_in) {
                 acc_c.lock().unwrap().push((ops.clone(), cfg));
             }
             if check.want_sample() && ops.len() >= 4 {
@@ -489,7 +497,7 @@ pub fn run(args: &Args) -> i32 {
     check.note("exhaustive", json!({"mesh_params_0_8_pow4_x3": true, "history_pairs_0_8": true, "prng_sequences": false, "heartbeat_half": false}));
 
     // heartbeat half: PRNG sample of the accepted pool
-    let nhb = args.tier.pick(6_000u64, 120_000);
+    let nhb = args.tier.pick(6_000u64, 1_500_000);
     if accepted.is_empty() {
         check.inconclusive("no accepted config to drive heartbeats with");
     } else {
